@@ -279,6 +279,10 @@ func (e *Engine) decide2(st *State, c *Term, knownSat bool) bool {
 		return v
 	}
 	tb := e.tb
+	if e.sol.Err != nil {
+		e.inconclusive("solver failure: %v", e.sol.Err)
+		panic(killPath{"solver failure"})
+	}
 	rt := ResSat
 	if !knownSat {
 		rt = e.sol.Check(st.PC, c)
@@ -355,6 +359,45 @@ func (e *Engine) concretize(st *State, t *Term, what string) uint64 {
 		// decide returned false: this value is infeasible?? (cannot happen right after a model) – loop
 	}
 	panic(&Unsupported{"concretize: too many feasible values for " + what})
+}
+
+// forkFresh forks n ways on a fresh variable v constrained only by v < n (every value is
+// feasible by construction, so no solver call is needed). Returns the value on this path.
+func (e *Engine) forkFresh(st *State, v *Term, n int) int {
+	tb := e.tb
+	if n <= 1 {
+		st.PC = tb.And(st.PC, tb.Eq(v, tb.Const(v.W, 0)))
+		return 0
+	}
+	for i := 0; i < n; i++ {
+		if st.forced[tb.Eq(v, tb.Const(v.W, uint64(i))).ID] {
+			return i
+		}
+	}
+	if st.forced == nil {
+		st.forced = map[int32]bool{}
+	}
+	for i := n - 1; i >= 1; i-- {
+		c := tb.Eq(v, tb.Const(v.W, uint64(i)))
+		nst := e.clone(st)
+		nst.thread().NNondet = st.snapNondet
+		nst.NFresh = st.snapFresh
+		nst.Log = st.snapLog
+		nst.Facets = st.snapFacets
+		nst.NextObj = st.snapObj
+		nst.EnvChoices = st.snapEnv
+		nst.PC = tb.And(st.PC, c)
+		if nst.forced == nil {
+			nst.forced = map[int32]bool{}
+		}
+		nst.forced[c.ID] = true
+		e.work = append(e.work, nst)
+		e.Stats.Forks++
+	}
+	c0 := tb.Eq(v, tb.Const(v.W, 0))
+	st.PC = tb.And(st.PC, c0)
+	st.forced[c0.ID] = true
+	return 0
 }
 
 func (e *Engine) assume(st *State, c *Term) {
